@@ -55,6 +55,10 @@ def z_round_half_even(x):
 
 
 def neg(I, st, v):
+    from .values import Inf as _Inf
+
+    if isinstance(v, _Inf):
+        return _Inf(-v.sign)  # -float("inf") is float("-inf")
     v = as_arith(v)
     if is_z3(v):
         return -v
@@ -63,6 +67,9 @@ def neg(I, st, v):
     if isinstance(v, Ref) and st.get(v).kind == "nd":
         from . import npmodel
 
+        if npmodel.dtype_of(st.get(v)) not in ("i", "f"):
+            # numpy: `-boolarr` raises TypeError (the boolean negative is not supported); other kinds are not modelled
+            raise Unsupported("unary minus on an array that is not int64 / float64")
         return npmodel.nd_map(I, st, v, lambda x: neg(I, st, x))
     raise Unsupported("unary minus on %r" % (v,))
 
